@@ -472,3 +472,37 @@ Definition mon_C10x (c : syscase) : N :=
 
 Definition mon_C17 (c : syscase) : N :=
   match mon_C17a c with 0 => with_cfg (fun cfg ops xs => c17iso_from cfg [] [] 0 ops xs) c | k => k end.
+
+(* ================================================================================== *)
+(* C02: every navigation targets a URI registered for the client, or one that this client pushed
+   (accepted by /par) where unregistered URIs are permitted for PAR / under FAPI *)
+Fixpoint c02_from (cs : syscase) (cfg : config) (cbs : list (id * id)) (pushed : list (id * string))
+                  (k : nat) (ops : list op) (xs : list obs) : N :=
+  match ops, xs with
+  | o :: ops', x :: xs' =>
+      let ok_target (cl : id) (u : string) : bool :=
+        match client_of cs cl with
+        | Some c => orb (redirect_allowed c u)
+                      (andb (orb (cf_par_unregistered cfg) (is_fapi (cf_profile cfg)))
+                            (existsb (fun pr => andb (ideq (fst pr) cl) (seqb (snd pr) u)) pushed))
+        | None => false
+        end in
+      let bad : bool :=
+        match o, x with
+        | OpAuthorize r, Out (ONav _ u _) => negb (ok_target (ar_client r) u)
+        | OpCallback r, Out (ONav _ u _) =>
+            match lookup (cb_id r) cbs with Some cl => negb (ok_target cl u) | None => true end
+        | _, _ => false
+        end in
+      if bad then viol 1 k else
+      c02_from cs cfg
+        (match o, x with OpAuthorize r, Out (OPage cb) => (cb, ar_client r) :: cbs | _, _ => cbs end)
+        (match o, x with OpPar r, Out (OPar _) => (cr_id (pr_cred r), p_redirect (pr_params r)) :: pushed | _, _ => pushed end)
+        (S k) ops' xs'
+  | _, _ => 0
+  end.
+Definition mon_C02 (c : syscase) : N :=
+  match build (sc_profile c) (sc_opts c) with
+  | Some cfg => c02_from c cfg [] [] 0 (sc_ops c) (sc_obs c)
+  | None => 0
+  end.
